@@ -512,6 +512,13 @@ impl CompactionWorker {
             return;
         }
 
+        #[cfg(feature = "verif")]
+        let verif_new_file: (u64, usize, u64) = change_manifest
+            .new_files
+            .first()
+            .map(|(level, file)| (file.file_number(), *level, file.get_file_size()))
+            .unwrap_or((0, 0, 0));
+
         // The memtable was converted to a table file so the associated WAL is also obsolete.
         // Remove references via the change manifest.
         change_manifest.prev_wal_file_number = None;
@@ -549,11 +556,7 @@ impl CompactionWorker {
             .store(false, Ordering::Release);
         #[cfg(feature = "verif")]
         {
-            let (file, level, size) = change_manifest
-                .new_files
-                .first()
-                .map(|(level, file)| (file.file_number(), *level, file.get_file_size()))
-                .unwrap_or((0, 0, 0));
+            let (file, level, size) = verif_new_file;
             let entries = if size > 0 {
                 crate::verif::table_entries(&db_state.table_cache, file)
             } else {
